@@ -1247,3 +1247,44 @@ func projectPath(t *Term, path []string) *Term {
 	}
 	return t
 }
+
+// condAtom is an If-condition occurring in a path condition with its polarity; Disj marks atoms
+// that sit under an "or" (their truth is not implied by the path condition).
+type condAtom struct {
+	Atom *Term
+	Neg  bool
+	Disj bool
+}
+
+func (c *Cond) atoms() []condAtom {
+	var out []condAtom
+	var walk func(x *Cond, neg, disj bool)
+	walk = func(x *Cond, neg, disj bool) {
+		switch x.Op {
+		case "atom":
+			out = append(out, condAtom{x.Atom, neg, disj})
+		case "not":
+			walk(x.Args[0], !neg, disj)
+		case "and":
+			for _, a := range x.Args {
+				walk(a, neg, disj || neg)
+			}
+		case "or":
+			for _, a := range x.Args {
+				walk(a, neg, disj || !neg)
+			}
+		}
+	}
+	walk(c, false, false)
+	return out
+}
+
+// implies reports whether the path condition has the conjunct atom (by term string) with the given polarity.
+func (c *Cond) implies(atom string, neg bool) bool {
+	for _, a := range c.atoms() {
+		if !a.Disj && a.Neg == neg && a.Atom.String() == atom {
+			return true
+		}
+	}
+	return false
+}
